@@ -33,6 +33,14 @@ def reason_class(r):
     return re.sub(r"[0-9]+", "#", r.split("@")[0])
 
 
+CRASHY = ("fatal", "timeout", "oom", "crash-")
+
+
+def same_class(got, want):
+    """A run that dies (fault, memory limit, time limit) may die differently when it is repeated alone: one crash class confirms another."""
+    return got == want or (got.startswith(CRASHY) and want.startswith(CRASHY))
+
+
 def find_case(ctx, cid):
     for p in ctx.case_files:
         for line in open(p):
@@ -101,7 +109,7 @@ def confirm(ctx, module, cid, want_class):
         for (i, prop, reason) in verdicts:
             if alias and i == cid and (prop == alias or (alias == "any" and prop in ("C01", "C02", "C05", "C13")) or (alias == "sys" and prop in ("C06", "C10", "C11"))) and not reason.startswith("known:"):
                 return rp
-            if i == cid and prop == ctx.prop and not reason.startswith("known:") and reason_class(reason) == want_class:
+            if i == cid and prop == ctx.prop and not reason.startswith("known:") and same_class(reason_class(reason), want_class):
                 return rp
     return None
 
